@@ -219,6 +219,19 @@ def _m1_site(f: Func, call: ast.Call, res: RuleResult):
             return
     bases = _base_names(expr)
     st_call = _stmt_of(loop, call)
+    # every merge inside the loop goes through the count-aware merge: the accumulator is assigned by nothing else there
+    acc_names = {t.id for s_ in ast.walk(loop) if isinstance(s_, ast.Assign) and s_.value is call for t in s_.targets if isinstance(t, ast.Name)}
+    for s_ in ast.walk(loop):
+        if isinstance(s_, (ast.Assign, ast.AugAssign)) and not (isinstance(s_, ast.Assign) and isinstance(s_.value, ast.Call)
+                                                                  and (call_name(s_.value) or "").split(".")[-1] == "reduce_array_pair"):
+            tg = s_.targets if isinstance(s_, ast.Assign) else [s_.target]
+            hit = [t.id for t in tg if isinstance(t, ast.Name) and t.id in acc_names]
+            if hit:
+                res.bad(f, s_, construct[:60] + " / " + norm(s_)[:70],
+                        f"inside the merge loop the accumulator {hit[0]!r} is also assigned by `{norm(s_)[:60]}`, i.e. some partials are merged "
+                        f"around the count-aware merge: the untouched initial value of a group that is empty so far (a sentinel for "
+                        f"integers and timestamps) is then combined as if it were data")
+                return
     # accumulation statements of a base variable inside the loop body
     acc_after = acc_before = None
     seen_call = False
